@@ -524,7 +524,11 @@ func (g *gen) addStruct(pkg *Pkg, file *File, exported bool) *tinfo {
 			}
 			used[f.Name] = true
 		}
-		ft, fti := g.drawType(pkg, "ftype", typeCtx{})
+		unexp := !(f.Name[0] >= 'A' && f.Name[0] <= 'Z')
+		ft, fti := g.drawType(pkg, "ftype", typeCtx{noUnion: unexp && g.o.Unions > 0 && g.o.gated("union_only_via_ignored_field")})
+		if unexp && fti != nil && fti.hasUnion && g.o.gated("union_only_via_ignored_field") {
+			ft, fti = Basic("int"), nil
+		}
 		f.Type = ft
 		if fti != nil {
 			ti.hasUnion = ti.hasUnion || fti.hasUnion || fti.cat == "union"
@@ -532,6 +536,9 @@ func (g *gen) addStruct(pkg *Pkg, file *File, exported bool) *tinfo {
 		}
 		if f.Name[0] >= 'A' && f.Name[0] <= 'Z' {
 			f.Tag = g.drawTag(f.Name, "tag")
+			if (strings.Contains(f.Tag, `json:"-"`) || strings.Contains(f.Tag, `gomacro:"ignore"`)) && fti != nil && (fti.cat == "union" || fti.hasUnion) && g.o.gated("union_only_via_ignored_field") {
+				f.Tag = ""
+			}
 			if strings.Contains(f.Tag, "gomacro-data") && fti != nil && (fti.cat == "union" || fti.hasUnion) {
 				// a skipped union component would stay nil, which is outside the JSON round trip's domain
 				f.Tag = ""
